@@ -329,6 +329,25 @@ inline void prop_reg(const vf::Case& c, Ctx& ctx)
                 VF_CHECK(got_ov.back().s == "OVTAIL", sname(sc) << ": set_waveform dropped the trailing data of the overview waveform blob");
             }
             break;
+        case 16:  // F35: playlist_entity_table::get() with the same track id from two databases in one playlist
+            for (auto sc : e::supported_v2_schemas)
+            {
+                namespace v2 = djinterop::engine::v2;
+                auto lib = v2::engine_library::create_temporary(sc);
+                auto pt = lib.playlist();
+                auto et = lib.playlist_entity();
+                std::string uuid = lib.information().get().uuid;
+                int64_t list = pt.add(v2::playlist_row{0, "L", 0, true, 0, std::chrono::system_clock::time_point{}, true});
+                int64_t e1 = et.add_back(v2::playlist_entity_row{0, list, 7, uuid, 0, 0});
+                int64_t e2 = et.add_back(v2::playlist_entity_row{0, list, 7, "another-database", 0, 0});
+                VF_CHECK(e1 != e2, sname(sc) << ": the entity of another database was not added");
+                auto g1 = et.get(list, 7);  // used to abort (assert) in builds with assertions, arbitrary row otherwise
+                auto g2 = et.get(list, 7);
+                VF_CHECK(g1 && g2 && g1->id == g2->id && g1->database_uuid == g2->database_uuid, sname(sc) << ": get(list, track) is not repeatable");
+                VF_CHECK(g1->id == e1 || g1->id == e2, sname(sc) << ": get(list, track) returns an entity that was never added");
+                VF_CHECK(et.get_for_list(list).size() == 2 && et.track_ids(list).size() == 2, sname(sc) << ": listing loses an entity");
+            }
+            break;
         default: break;
     }
 }
